@@ -906,6 +906,12 @@ var ntFeats = []string{"gen-arg", "path", "update-lhs", "try", "?//", "reduce", 
 
 func doCustom(sub string, c customCase) string {
 	rec.Eval()
+	for _, r := range c.Regs {
+		if retainedKinds[r.Body.Kind] {
+			rec.Journal(sub, c) // a retained argument buffer can become cyclic: the process may die
+			break
+		}
+	}
 	o := checkCustom(c)
 	if o.discard != "" {
 		rec.Discard("custom/" + o.discard)
